@@ -13,7 +13,7 @@ TV   Preproc_Trace (token origins: copied / expanded / synthesised; blank-run ru
      origin(p) against the transcribed map and against the pushed segments; get_origin of leaves).
 """
 import random, json
-import vlib, pp, ppcheck
+import vlib, pp, ppcheck, gen
 import c04, c05
 
 HOOKS = ["pp_enter", "pp_leave", "push", "merge"]
@@ -152,6 +152,23 @@ def run(tier, seed):
         c["id"] = nid
         cases.append(c)
         by_id[str(nid)] = {"kind": "include"}
+    # the group written behind a macro WITHOUT formals is ordinary text that is restored behind the expansion and rescanned:
+    # nested usages in it make the restored segment longer or shorter than its source range; whatever follows the closing
+    # parenthesis - glued or not - must still map to its own bytes (round-7 seeded change: adjacent origin entries of one file
+    # coalesced on the assumption that a segment's output is as long as its source range)
+    for body in (None, [pp.bt("lit", "e1")]):
+        for zbody in ([pp.bt("lit", "z")], [pp.bt("lit", "zz12345")], [pp.bt("lit", "a"), pp.bt("lit", "+"), pp.bt("lit", "b")], None):
+            for inner in ([pp.bt("use", "Z")], [pp.bt("lit", "q"), pp.bt("use", "Z")], [pp.bt("use", "Z"), pp.bt("use", "Z")], [pp.bt("lit", "q")]):
+                for glued in (True, False):
+                    nid += 1
+                    items = [pp.define("E", None, body), pp.nl(), pp.define("Z", None, zbody), pp.nl(), pp.tok("pre"),
+                             pp.use("E", [inner], g=glued), pp.tok("+"), pp.tok("post"), pp.nl(), pp.tok("next"), pp.use("E", [inner, inner]), pp.tok("last"), pp.nl()]
+                    cases.append({"id": nid, "files": {"top.sv": items}, "top": "top.sv"})
+                    by_id[str(nid)] = {"kind": "restored-group"}
+    for i in range(300 if quick else 4000):
+        nid += 1
+        cases.append({"id": nid, "files": {"top.sv": gen.finish_file(gen.mixed_program(rng, gen.U(), strings=False))}, "top": "top.sv"})
+        by_id[str(nid)] = {"kind": "mixed"}
     for c in cases:
         c["blank"] = rng.choice([" ", "  ", " \t "])     # irregular blank runs make shifted offsets visible
         if rng.random() < 0.15:
